@@ -8,6 +8,7 @@ package main
 import (
 	"go/token"
 	"go/types"
+	"strings"
 
 	"golang.org/x/tools/go/ssa"
 )
@@ -337,6 +338,13 @@ func fieldSource(v ssa.Value, subst map[ssa.Value]ssa.Value) (ssa.Value, bool) {
 			if n == 1 {
 				return val, true
 			}
+			if n == 0 {
+				// a copy of a struct value that came from elsewhere (a value receiver spilled into a local)
+				if sv := singleWholeStore(b); sv != nil {
+					base = sv
+					continue
+				}
+			}
 			return nil, false
 		case *ssa.Call:
 			g := b.Common().StaticCallee()
@@ -420,4 +428,152 @@ func fieldWrittenBy(h *ssa.Function, prm, field, depth int) bool {
 		}
 	})
 	return found
+}
+
+// A series bundled with others in a struct and reached through small methods
+// (`inflow, lateral := series.read(i)`, `series.write(i, v)`): bundledOps lists the element accesses one call of such a
+// method stands for, in the caller's terms — the series (what the caller stored into the struct field), the time index
+// (the caller's argument that the method stores into the index vector, or passes to Get1/Set1), the value written, and
+// for a read the index of the result it is returned as. ok=false when the callee is not of that shape.
+type seriesOp struct {
+	write  bool
+	series ssa.Value
+	index  ssa.Value
+	value  ssa.Value
+	result int
+}
+
+func bundledOps(c ssa.CallInstruction) ([]seriesOp, bool) {
+	g := c.Common().StaticCallee()
+	if g == nil || g.Blocks == nil || len(g.Blocks) != 1 || !InModule(g) || c.Common().IsInvoke() || len(g.Params) != len(c.Common().Args) {
+		return nil, false
+	}
+	if pk := fnPkg(g); pk == nil || !strings.HasPrefix(relPkg(pk.Path()), "models") {
+		return nil, false
+	}
+	args := c.Common().Args
+	paramOf := func(v ssa.Value) int {
+		v = stripConv(v)
+		for i, p := range g.Params {
+			if v == ssa.Value(p) {
+				return i
+			}
+		}
+		return -1
+	}
+	// caller-side value of a field of a struct parameter of g
+	fieldInCaller := func(v ssa.Value) ssa.Value {
+		pi, k, ok := fieldLoad(g, v)
+		if !ok {
+			return nil
+		}
+		subst := map[ssa.Value]ssa.Value{}
+		vals := structFieldValues(args[pi], k, 0)
+		if len(vals) == 1 {
+			return vals[0]
+		}
+		// built by a constructor
+		if u, ok := v.(*ssa.UnOp); ok {
+			subst[g.Params[pi]] = args[pi]
+			if src, ok := fieldSource(u, subst); ok {
+				return substOrigin(src, subst)
+			}
+		}
+		return nil
+	}
+	// the time index an index vector (a field of the struct, or a local literal) holds at an access in g
+	indexAt := func(vec ssa.Value, at ssa.Instruction) ssa.Value {
+		var found ssa.Value
+		for i := instrIndex(at) - 1; i >= 0; i-- {
+			st, ok := g.Blocks[0].Instrs[i].(*ssa.Store)
+			if !ok {
+				continue
+			}
+			ia, ok := st.Addr.(*ssa.IndexAddr)
+			if !ok {
+				continue
+			}
+			if c0, ok := constInt(ia.Index); !ok || c0 != 0 {
+				continue
+			}
+			same := ia.X == vec || origin1(ia.X) != nil && origin1(ia.X) == origin1(vec)
+			if !same {
+				// two loads of the same field
+				p1, k1, ok1 := fieldLoad(g, ia.X)
+				p2, k2, ok2 := fieldLoad(g, vec)
+				same = ok1 && ok2 && p1 == p2 && k1 == k2
+			}
+			if same {
+				found = st.Val
+				break
+			}
+		}
+		if found == nil {
+			return nil
+		}
+		if pi := paramOf(found); pi >= 0 {
+			return args[pi]
+		}
+		return nil
+	}
+	var ops []seriesOp
+	rets := returnsOf(g)
+	if len(rets) != 1 {
+		return nil, false
+	}
+	for _, ins := range g.Blocks[0].Instrs {
+		call, ok := ins.(*ssa.Call)
+		if !ok {
+			continue
+		}
+		if !call.Common().IsInvoke() {
+			if _, isB := call.Common().Value.(*ssa.Builtin); isB {
+				continue
+			}
+			return nil, false // calls something else: not a plain accessor
+		}
+		nm := call.Common().Method.Name()
+		if nm != "Get" && nm != "Get1" && nm != "Set" && nm != "Set1" {
+			if nm == "Len1" || nm == "Len" {
+				continue
+			}
+			return nil, false
+		}
+		op := seriesOp{write: nm == "Set" || nm == "Set1", result: -1}
+		if pi := paramOf(call.Common().Value); pi >= 0 {
+			op.series = args[pi]
+		} else {
+			op.series = fieldInCaller(call.Common().Value)
+		}
+		ia := call.Common().Args[0]
+		if nm == "Get1" || nm == "Set1" {
+			if pi := paramOf(ia); pi >= 0 {
+				op.index = args[pi]
+			}
+		} else {
+			op.index = indexAt(ia, call)
+		}
+		if op.write {
+			if pi := paramOf(call.Common().Args[1]); pi >= 0 {
+				op.value = args[pi]
+			}
+			if op.value == nil {
+				return nil, false
+			}
+		} else {
+			for k, rv := range rets[0].Results {
+				if origin1(rv) == ssa.Value(call) || rv == ssa.Value(call) {
+					op.result = k
+				}
+			}
+			if op.result < 0 {
+				return nil, false
+			}
+		}
+		if op.series == nil || op.index == nil {
+			return nil, false
+		}
+		ops = append(ops, op)
+	}
+	return ops, len(ops) > 0
 }
